@@ -116,6 +116,13 @@ theorem logLik_rescaled_eq_plain (T tipCount : Nat) (hT : tipCount ≤ T)
   rw [rescaled_eq_plain T tipCount hT scaler tipc M freqs props st ts hwf hpos n (hlik n)]
 
 
+example (w : Fin 1 → ℝ) :
+    logLikScaled Ex.inp.freqs Ex.inp.props w ((peelRescaled 0 noTips Ex.M Ex.tips Ex.ts).st.get (rootOf Ex.ts))
+        (peelRescaled 0 noTips Ex.M Ex.tips Ex.ts).scalers
+      = logLikPlain Ex.inp.freqs Ex.inp.props w ((peel 0 noTips Ex.M Ex.tips Ex.ts).get (rootOf Ex.ts)) :=
+  logLik_rescaled_eq_plain 3 0 (by omega) _ noTips Ex.M _ _ w Ex.tips Ex.ts Ex.wf_ts
+    (Ex.resc_pos Ex.tips (fun _ _ => rfl)) (Ex.plain_lik Ex.tips (fun _ _ => rfl))
+
 /-- **safe = plain, per site**: the mixed pass `calculate_treelikelihood_discrete_safe`, run on the
   list `Pf` a plain pass with the same matrices left behind (`Consistent`), for ANY threshold test
   `below` and ANY positive scalers; nodes that are not rescaled contribute no scaler. The value is
@@ -229,6 +236,10 @@ theorem plain_root_indep (T tipCount : Nat) (tipc : Nat → Fin N → Fin K → 
     (peel tipCount tipc M st ts).get (rootOf ts) = (peel tipCount tipc M st0 ts).get (rootOf ts) :=
   peel_indep (T := T) tipCount tipc M ts st st0 [] [] _ (fun _ h => by simp at h) (wf_unpack hwf)
     (fun i hi => h i (hi.resolve_right (by simp))) _ (List.mem_singleton.mpr rfl)
+
+example (st : Store ℝ 1 1 2) (h : TipsAgree 3 st Ex.tips) :
+    (peel 0 noTips Ex.M st Ex.ts).get (rootOf Ex.ts) = (peel 0 noTips Ex.M Ex.tips Ex.ts).get (rootOf Ex.ts) :=
+  plain_root_indep 3 0 noTips Ex.M st Ex.tips Ex.ts Ex.wf_ts h
 
 /-- **one evaluation, tip-partials path**: whichever branch runs (flag set: rescaled; flag clear:
   plain, or plain then safe when `switch` fires), the returned value is the plain log-likelihood -/
